@@ -1,7 +1,7 @@
 (** Closed obligations over the regenerated grammar terms (re-checked whenever the translators'
     output changes): all by computation. *)
 From Coq Require Import String List Bool Arith.
-From A2L Require Import Gram.Spec Gram.WriterTable Gen.SpecShipped Gen.SpecDsl Gen.SpecRef Gen.WriterShipped.
+From A2L Require Import Gram.Spec Gram.WriterTable Gen.SpecShipped Gen.SpecDsl Gen.SpecRef Gen.WriterShipped Proofs.SpecEqProofs.
 
 (* C20: the grammar implemented by the shipped generated code = the grammar the in-tree DSL parser reads
    from the in-tree specification *)
@@ -15,77 +15,6 @@ Proof. vm_compute. reflexivity. Qed.
 (* C01/C02: every stringify / PartialEq of the shipped code is the instance of the writer template for its type *)
 Lemma writer_is_consistent : writer_consistent spec_shipped writer_shipped = true.
 Proof. vm_compute. reflexivity. Qed.
-
-(* ---------- spec_eqb is sound, so the boolean obligations are equalities of the terms ---------- *)
-Lemma ity_eqb_eq a b : ity_eqb a b = true -> a = b.
-Proof. destruct a, b; simpl; congruence. Qed.
-Lemma version_eqb_eq a b : version_eqb a b = true -> a = b.
-Proof. destruct a, b; simpl; congruence. Qed.
-Lemma opt_eqb_eq {A} (f : A -> A -> bool) : (forall x y, f x y = true -> x = y) -> forall a b, opt_eqb f a b = true -> a = b.
-Proof. intros H [x|] [y|]; simpl; try congruence. intros E. f_equal. apply H, E. Qed.
-Lemma list_eqb_eq {A} (f : A -> A -> bool) : (forall x y, f x y = true -> x = y) -> forall a b, list_eqb f a b = true -> a = b.
-Proof.
-  intros H. induction a as [|x r IH]; intros [|y s]; simpl; try congruence.
-  intros E. apply Bool.andb_true_iff in E. destruct E as [E1 E2]. f_equal; [apply H, E1 | apply IH, E2].
-Qed.
-Lemma bool_eqb_eq a b : Bool.eqb a b = true -> a = b.
-Proof. apply Bool.eqb_prop. Qed.
-Lemma string_eqb_eq a b : String.eqb a b = true -> a = b.
-Proof. apply String.eqb_eq. Qed.
-
-Lemma fty_eqb_eq : forall a b, fty_eqb a b = true -> a = b.
-Proof.
-  induction a; intros b; destruct b; simpl; try congruence; intros E.
-  - f_equal. apply ity_eqb_eq, E.
-  - f_equal. apply Nat.eqb_eq, E.
-  - f_equal. apply string_eqb_eq, E.
-  - f_equal. apply string_eqb_eq, E.
-  - apply Bool.andb_true_iff in E. destruct E as [E1 E2]. f_equal; [apply IHa, E1 | apply Nat.eqb_eq, E2].
-  - apply Bool.andb_true_iff in E. destruct E as [E1 E2]. f_equal; [apply IHa, E1 | apply (list_eqb_eq _ string_eqb_eq), E2].
-Qed.
-
-Ltac split_andb H :=
-  repeat match type of H with
-         | (_ && _)%bool = true => let H1 := fresh "E" in apply Bool.andb_true_iff in H; destruct H as [H H1]
-         end.
-
-Lemma titem_eqb_eq a b : titem_eqb a b = true -> a = b.
-Proof.
-  destruct a, b. unfold titem_eqb. simpl. intros E.
-  repeat (apply Bool.andb_true_iff in E; let X := fresh "X" in destruct E as [E X]).
-  f_equal; try (apply string_eqb_eq; assumption); try (apply bool_eqb_eq; assumption);
-    try (apply (opt_eqb_eq _ bool_eqb_eq); assumption); try (apply (opt_eqb_eq _ version_eqb_eq); assumption).
-Qed.
-
-Lemma item_eqb_eq a b : item_eqb a b = true -> a = b.
-Proof.
-  destruct a, b; simpl; try congruence; intros E.
-  - apply Bool.andb_true_iff in E. destruct E as [E1 E2]. f_equal; [apply string_eqb_eq, E1 | apply fty_eqb_eq, E2].
-  - repeat (apply Bool.andb_true_iff in E; let X := fresh "X" in destruct E as [E X]).
-    f_equal; [apply bool_eqb_eq; assumption | apply bool_eqb_eq; assumption | apply (list_eqb_eq _ titem_eqb_eq); assumption].
-Qed.
-
-Lemma tkind_eqb_eq a b : tkind_eqb a b = true -> a = b.
-Proof. destruct a, b; simpl; congruence. Qed.
-
-Lemma enumitem_eqb_eq a b : enumitem_eqb a b = true -> a = b.
-Proof.
-  destruct a, b. unfold enumitem_eqb. simpl. intros E.
-  repeat (apply Bool.andb_true_iff in E; let X := fresh "X" in destruct E as [E X]).
-  f_equal; try (apply string_eqb_eq; assumption); try (apply (opt_eqb_eq _ version_eqb_eq); assumption).
-Qed.
-
-Lemma tydef_eqb_eq a b : tydef_eqb a b = true -> a = b.
-Proof.
-  destruct a, b. unfold tydef_eqb. simpl. intros E.
-  repeat (apply Bool.andb_true_iff in E; let X := fresh "X" in destruct E as [E X]).
-  f_equal; try (apply string_eqb_eq; assumption); try (apply tkind_eqb_eq; assumption);
-    try (apply (opt_eqb_eq _ string_eqb_eq); assumption); try (apply bool_eqb_eq; assumption);
-    try (apply (list_eqb_eq _ item_eqb_eq); assumption); try (apply (list_eqb_eq _ enumitem_eqb_eq); assumption).
-Qed.
-
-Lemma spec_eqb_eq a b : spec_eqb a b = true -> a = b.
-Proof. apply (list_eqb_eq _ tydef_eqb_eq). Qed.
 
 Lemma shipped_is_dsl : spec_shipped = spec_dsl.
 Proof. apply spec_eqb_eq, shipped_equals_dsl. Qed.
